@@ -8,8 +8,8 @@ mkdir -p evidence replays .scratch
 go vet -tags verif ./internal/... >/dev/null 2>&1 || true
 go test -tags verif -count=1 -run '^$' ./props/... ./internal/...
 python3 - <<'PY'
-import json,subprocess,os
-cfg=json.load(open('checks.json'))['checks']
+import json,subprocess,os,glob
+cfg={os.path.basename(os.path.dirname(f)).upper(): json.load(open(f)) for f in glob.glob('props/c*/check.json')}
 pk=sorted({c.get('pkg','./props/'+k.lower()) for k,c in cfg.items() if c.get('race',{}).get('quick') or c.get('race',{}).get('thorough')})
 if pk:
     subprocess.check_call(['go','test','-tags','verif','-race','-count=1','-run','^$']+pk)
